@@ -64,6 +64,10 @@ for nm, fn, c, extra in [("finish", "w_top_finish", "top_finish_c", []), ("nulli
       functions=["OS_TOP_%s (macro, via one-line wrapper %s)" % (nm.upper(), fn)],
       what="macro OS_TOP_%s: length arithmetic, appended bytes, earlier bytes unchanged, writes stay inside the segment" % nm.upper(), **OS)
 
+S(id="OS.expand.fail", props=["C17", "C19"], harness="h_os_expand_fail", mode="L", dfcc=False, instr=["--drop-unused-functions"], cbmc=["--malloc-may-fail", "--malloc-fail-null"],
+  functions=["_OS_expand_memory"], what="exit assertion at the memory request inside _OS_expand_memory: when it fails the stack still owns its current segment and its top object (the owner can still delete it)", **OS)
+S(id="OS.empty", props=["C19", "C12"], harness="h_os_empty", mode="B", dfcc=False, instr=["--drop-unused-functions"], unwind_all=4, canaries=3, bound="<= 3 segments of arbitrary lengths <= CAP",
+  functions=["_OS_empty_function"], what="OS_EMPTY keeps the first segment (the one initial_segment_length describes), releases the later ones once, leaves one empty top object and a boundary inside the kept block", **OS)
 # ---------------- C19: vlobject.c ----------------
 VLO = dict(spec="vlobject.spec.c", params={"quick": {"CAP": 64}, "thorough": {"CAP": 1024}})
 for nm, extra in [("create", []), ("delete", []), ("nullify", []), ("length", []), ("begin", []), ("bound", []), ("shorten", []),
